@@ -645,12 +645,12 @@ theorem pickle_source :
 /-! ### the model's reading of `copy_self`, pinned to the live source -/
 
 /-- `Tag.copy_self` passes, for **every** parameter of `Tag.__init__` other than `parent`/`previous`, either `None`
-    (`parser`, `builder`) or the tag's own value — exactly the arguments `copySelf` models; then rebuilds `attrs` in a dict
+    (`parser`, `builder`, and — since 51c5c32 — `attrs`, which is rebuilt right after the call) or the tag's own value — exactly the arguments `copySelf` models; then rebuilds `attrs` in a dict
     of the original's class (the repair) and re-sets `can_be_empty_element` and `hidden`. Generated from the running source
     with `inspect`/`ast`; the whole tables are compared. -/
 theorem copy_self_source :
     BS.Gen.Copy.copySelfArgs =
-      [(ofS "attrs", ofS "self.attrs"), (ofS "builder", ofS "None"),
+      [(ofS "attrs", ofS "None"), (ofS "builder", ofS "None"),
        (ofS "can_be_empty_element", ofS "self.can_be_empty_element"),
        (ofS "cdata_list_attributes", ofS "self.cdata_list_attributes"),
        (ofS "interesting_string_types", ofS "self.interesting_string_types"), (ofS "is_xml", ofS "self._is_xml"),
